@@ -1354,6 +1354,24 @@ func (a *idxAnalyzer) tupleAssign(z *zone, lhs []ast.Expr, call *ast.CallExpr) {
 		return
 	}
 	p, n := callee.Pkg().Path(), callee.Name()
+	if p == "google.golang.org/protobuf/encoding/protowire" && strings.HasPrefix(n, "Consume") && len(call.Args) >= 1 && len(lhs) >= 2 {
+		// the last result is the number of bytes consumed (<= len(b)), or a negative error code
+		if k, ok := a.termKey(lhs[len(lhs)-1]); ok {
+			z.neg[k] = true
+			if sk, ok := a.seqKey(call.Args[0]); ok {
+				z.add(k, "len("+sk+")", 0)
+			}
+			// a length-delimited payload is no longer than the input
+			if n == "ConsumeBytes" || n == "ConsumeString" {
+				if pk, ok := a.seqKey(lhs[0]); ok {
+					if sk, ok := a.seqKey(call.Args[0]); ok {
+						z.add("len("+pk+")", "len("+sk+")", 0)
+					}
+				}
+			}
+		}
+		return
+	}
 	if p == "unicode/utf8" && (n == "DecodeRuneInString" || n == "DecodeRune" || n == "DecodeLastRuneInString" || n == "DecodeLastRune") && len(lhs) == 2 && len(call.Args) == 1 {
 		if k, ok := a.termKey(lhs[1]); ok {
 			// 0 <= size <= len(arg); size >= 1 when arg is non-empty (not modelled: lower bound 0)
@@ -1445,9 +1463,19 @@ func (a *idxAnalyzer) invalidateByCall(z *zone, call *ast.CallExpr) {
 	if !ok {
 		// plain function call: pointer-typed arguments may be written through
 		for _, arg := range call.Args {
-			if _, isPtr := a.info.TypeOf(arg).Underlying().(*types.Pointer); isPtr {
+			if pt, isPtr := a.info.TypeOf(arg).Underlying().(*types.Pointer); isPtr {
 				if k, ok := a.termKey(arg); ok {
-					a.forgetFields(z, k, nil)
+					if isIntType(pt.Elem()) {
+						// *int cursor: the callee only moves it forward when it is a known
+						// monotone cursor function of this package, otherwise forget it
+						if a.advancesPtr(call) {
+							z.grow(k, 0)
+						} else {
+							z.forget(k)
+						}
+					} else {
+						a.forgetFields(z, k, nil)
+					}
 				}
 			}
 		}
@@ -1505,4 +1533,85 @@ func (a *idxAnalyzer) forgetFields(z *zone, recv string, only map[string]bool) {
 	for k := range kill {
 		z.forget(k)
 	}
+}
+
+// advancesPtr: the callee is a package function that only ever increases the *int cursor it is
+// given (every write through the pointer is ++, += non-negative, or = an expression provably >=
+// the old value is not attempted: only the syntactic forms are accepted), transitively.
+func (a *idxAnalyzer) advancesPtr(call *ast.CallExpr) bool {
+	callee, _ := calleeOf(a.info, call).(*types.Func)
+	if callee == nil || a.declOf[callee] == nil {
+		return false
+	}
+	return a.ptrMonotone(callee, map[*types.Func]bool{})
+}
+
+func (a *idxAnalyzer) ptrMonotone(fn *types.Func, seen map[*types.Func]bool) bool {
+	if seen[fn] {
+		return true
+	}
+	seen[fn] = true
+	fd := a.declOf[fn]
+	if fd == nil {
+		return false
+	}
+	ok := true
+	ast.Inspect(fd.Body, func(n ast.Node) bool {
+		switch x := n.(type) {
+		case *ast.AssignStmt:
+			for i, l := range x.Lhs {
+				st, isStar := ast.Unparen(l).(*ast.StarExpr)
+				if !isStar || !isIntType(a.info.TypeOf(l)) {
+					continue
+				}
+				switch x.Tok {
+				case token.ADD_ASSIGN:
+					// accepted: += without subtraction
+					ast.Inspect(x.Rhs[0], func(m ast.Node) bool {
+						if be, isBin := m.(*ast.BinaryExpr); isBin && be.Op == token.SUB {
+							ok = false
+						}
+						return true
+					})
+				case token.ASSIGN:
+					// *idx = j + c where j was derived from *idx by additions only: accept the
+					// common form "local cursor copied from *idx, advanced, stored back"
+					if i < len(x.Rhs) {
+						l, lok := a.lin(x.Rhs[i])
+						if !lok {
+							ok = false
+						} else {
+							for _, v := range l.t {
+								if v < 0 {
+									ok = false
+								}
+							}
+							if l.c < 0 {
+								ok = false
+							}
+						}
+					}
+				default:
+					ok = false
+				}
+				_ = st
+			}
+		case *ast.IncDecStmt:
+			if _, isStar := ast.Unparen(x.X).(*ast.StarExpr); isStar && x.Tok == token.DEC {
+				ok = false
+			}
+		case *ast.CallExpr:
+			if cal, isFn := calleeOf(a.info, x).(*types.Func); isFn && a.declOf[cal] != nil {
+				for _, arg := range x.Args {
+					if pt, isPtr := a.info.TypeOf(arg).Underlying().(*types.Pointer); isPtr && isIntType(pt.Elem()) {
+						if !a.ptrMonotone(cal, seen) {
+							ok = false
+						}
+					}
+				}
+			}
+		}
+		return true
+	})
+	return ok
 }
